@@ -86,7 +86,9 @@ JudgeSolve(e, st) ==
     IF e.ss /\ e.T < Len(st.orig.lagged) + 2 THEN Drift("option")       \* too short for the lags to settle
     ELSE IF ~e.on_ok /\ ~e.off_ok
          THEN IF ~Settles(e, st) /\ e.on_noeq /\ e.off_noeq THEN Ok ELSE Drift("returns")
-    ELSE IF ~(e.on_ok /\ e.off_ok) THEN Drift("returns")  \* the relation is stated for pairs that both return
+    \* a simplification that makes a solvable system unsolvable has lost its variables
+    ELSE IF e.off_ok /\ ~e.on_ok THEN (IF Settles(e, st) THEN Prop("C03_ReducedRunReturns") ELSE Drift("returns"))
+    ELSE IF ~(e.on_ok /\ e.off_ok) THEN Drift("returns")  \* unreduced raises alone: not a statement of C03
     ELSE IF ToSet(e.on_keys) # ToSet(e.off_keys) THEN Prop("C03_SameKeys")
     ELSE IF ~ObsPartitionOK(e, st) THEN Prop("C03_Partition")
     ELSE IF \E i \in 1..Len(e.rows) : ~RowEqual(e.rows[i]) THEN Prop("C03_SameSolution")
@@ -98,7 +100,8 @@ JudgeSolve(e, st) ==
     ELSE Ok
 
 JudgeNumeric(e) ==
-    IF ~(e.on_ok /\ e.off_ok) THEN Ok                     \* not asserted (convergence is C02/C11's business)
+    IF e.off_ok /\ ~e.on_ok /\ ~e.on_conv THEN Prop("C03_ReducedRunReturns")   \* raised, and not for lack of sweeps
+    ELSE IF ~(e.on_ok /\ e.off_ok) THEN Ok                \* not asserted (convergence is C02/C11's business)
     ELSE IF ~e.keys_equal THEN Prop("C03_SameKeys")
     ELSE IF ~e.part_ok THEN Prop("C03_Partition")
     ELSE IF ~e.k0_equal THEN Prop("C03_SameSolution")
